@@ -71,6 +71,7 @@ class _:
 
 rh = z3.Function("rec_header", smt.Int, smt.Int)  # ghost: index of the header line of the record line k belongs to
 rn = z3.Function("rec_number", smt.Int, smt.Int)  # ghost: number of header lines among lines 0..k
+first_named = z3.Function("first_header_named", smt.Str, smt.Int)  # ghost: index of the first header line carrying this name
 
 
 def ln(lines, k):
@@ -109,8 +110,17 @@ def file_model(lines):
         ("record-header", forall(lambda k: z3.Implies(z3.And(0 <= k, k < n), z3.And(0 <= rh(k), rh(k) <= k, hdr(L(rh(k))),
                                                                                     z3.If(hdr(L(k)), rh(k) == k, z3.And(k > 0, rh(k) == rh(k - 1))))))),
         ("record-lines", (lambda k, j: z3.ForAll([k, j], z3.Implies(z3.And(0 <= k, k < n, rh(k) < j, j <= k), z3.Not(hdr(L(j))))))(z3.Int("k!rl"), z3.Int("j!rl"))),
+        ("first-header-of-a-name", (lambda k: z3.ForAll([k], z3.Implies(z3.And(0 <= k, k < n, hdr(L(k))), (lambda f: z3.And(
+            0 <= f, f <= k, hdr(L(f)), smt.l_name(L(f)) == smt.l_name(L(k))))(first_named(smt.l_name(L(k))))),
+            patterns=[first_named(smt.l_name(L(k)))]))(z3.Int("k!fh"))),
         ("record-number", forall(lambda k: z3.Implies(z3.And(0 <= k, k < n), z3.And(rn(k) >= 1, rn(k) == z3.If(k > 0, rn(k - 1), 0) + z3.If(hdr(L(k)), 1, 0))))),
     ]
+
+
+def duplicate_names(lines):
+    a, b = z3.Int("a!dup"), z3.Int("b!dup")
+    return z3.Exists([a, b], z3.And(0 <= a, a < b, b < lines.len, hdr(ln(lines, a)), hdr(ln(lines, b)),
+                                    smt.l_name(ln(lines, a)) == smt.l_name(ln(lines, b))))
 
 
 def last_of_record(lines, k):
@@ -313,7 +323,11 @@ def _main_inv(v, e, o):
                            v.asm.z >= o.alloc, v.idx_dict.z >= o.alloc, v.seq_buffer.z >= o.alloc, v.fh.z >= o.alloc, v.fh.g_lines.z == lines.z,
                            v.asm.scaffolds.z == e.asm.scaffolds.z, v.asm.scaffolds.z >= o.alloc, v.buffer_size == o.buffer_size,
                            v.asm.z < v.alloc, v.idx_dict.z < v.alloc, v.seq_buffer.z < v.alloc, v.fh.z < v.alloc, v.asm.scaffolds.z < v.alloc)),
-        ("size", v.idx_dict.size >= 0),
+        ("size", z3.And(v.idx_dict.size >= 0, z3.Implies(v.asm.scaffolds.len > 0, v.idx_dict.size > 0))),
+        # every name in the index is the name of a header line of an earlier record (so meeting it again is a duplicate)
+        ("names-in-the-index", (lambda key: z3.ForAll([key], z3.Implies(v.idx_dict.has(key), (lambda f: z3.And(
+            i > 0, 0 <= f, f < rh(i - 1), hdr(ln(lines, f)), smt.l_name(ln(lines, f)) == key))(first_named(key))),
+            patterns=[v.idx_dict.has(key)]))(z3.String("key!names"))),
         ("start", z3.Implies(i == 0, z3.And(_O(v, "name").is_none, buf.g_n == 0, buf.g_pos == 0, v.idx_dict.size == 0, v.asm.scaffolds.len == 0))),
         ("header-values", z3.Implies(i > 0, z3.And(
             z3.Not(_O(v, "name").is_none), _O(v, "name").val == smt.l_name(H),
@@ -409,7 +423,8 @@ class _:
 
     # "Duplicate record names and files without records are rejected with an error": ValueError is the only way out
     # other than returning (no TypeError / IndexError / AttributeError / KeyError on any well-formed file)
-    raises = {"ValueError": lambda o: True}
+    # and that way is taken only for those two reasons: no well-formed file is rejected
+    raises = {"ValueError": lambda o: z3.Or(o.file.g_lines.len == 0, duplicate_names(o.file.g_lines))}
     modifies = staticmethod(lambda o: [("fresh-objs", "Assembly", ["name", "scaffolds", "header", "curated"]),
                                        ("fresh-objs", "Scaffold", ["name", "rows", "tag", "haplotype", "rank", "original_name", "original_tags"]),
                                        ("fresh-objs", "FastaInfo", ["length", "file_offset", "residues_per_line", "max_line_length"]),
